@@ -407,9 +407,6 @@ func (e *Engine) intrinsic(name string, fn *ssa.Function) (handler, bool) {
 	if e.initMode && len(fn.Blocks) == 0 {
 		return func(c *frame, f *ssa.Function, a []value) value { return retZero(f) }, true
 	}
-	if e.initMode && !strings.HasPrefix(pkg, "github.com/libp2p/go-libp2p") && !e.initAllowed(pkg) {
-		return func(c *frame, f *ssa.Function, a []value) value { return retZero(f) }, true
-	}
 	return nil, false
 }
 
